@@ -228,8 +228,12 @@ def run(ctx):
     for n in range(1, k + 1):
         if n <= 2:
             specs.append((A18, n, []))
-        else:
+        elif n < k or not q:
             specs += [(A18, n, [a, b]) for a in A18 for b in A18]
+        else:
+            # quick, longest length: the 21-token alphabet (the two newest damage tokens are covered up
+            # to length k-1, after the prefixes and in the damaged documents)
+            specs += [(T.ALPHABET21, n, [a, b]) for a in T.ALPHABET21 for b in T.ALPHABET21]
     # longer sequences over the 12-token core
     k11 = 5 if q else 6
     specs += [(T.ALPHABET11, k11, [a, b]) for a in T.ALPHABET11 for b in T.ALPHABET11]
@@ -249,7 +253,7 @@ def run(ctx):
         "evaluations": acc.n, "distinct_nontrivial": acc.nontrivial,
         "states": len({(a, b) for a, b, _ in edges}), "transitions": len(edges),
         "traces_validated_against_impl": acc.traces,
-        "rule": "all token sequences of length <= %d over the 23-token alphabet (18 well-formed tokens + an unterminated quoted string, one ending in the other quote character, an unterminated units expression, an unterminated comment + BEGIN_GROUP, which is a plain name under the ISIS grammar) and of length %d over a 12-token "
+        "rule": "all token sequences of length <= %d over the 23-token alphabet (quick: the longest length over 21 of them) (18 well-formed tokens + an unterminated quoted string, one ending in the other quote character, an unterminated units expression, an unterminated comment + BEGIN_GROUP, which is a plain name under the ISIS grammar) and of length %d over a 12-token "
                 "core, every sequence of length <= 3 after each of 3 prefixes (header comment + complete statement: non-initial parser states; spaced and compact), plus %d reference documents x all single%s token damages (delete, duplicate, swap, "
                 "replace by any alphabet token, truncate); each rendered with single spaces (lexically damaged ones also one token per line with a final line end; damaged documents also without optional white space) and run on 5 loaders; "
                 "states = distinct reference verdicts (class, diagnosis), transitions = (verdict, loader) pairs "
